@@ -9,7 +9,9 @@
 //!     per script (`ok:<digest>` / `err:<Variant>` / `panic:<msg>`); a worker that dies is
 //!     restarted after the job it died in, whose scripts are then run one per process so that
 //!     the crash becomes the outcome of exactly one case;
-//!   * the driver compares both profiles against the oracle of the property.
+//!   * the driver compares both profiles against the oracle of the property, job by job as soon
+//!     as both profiles have answered (nothing but counters and the smallest violating cases
+//!     is kept in memory).
 //!
 //! Every case that looks violating in the bulk run is re-executed alone in a fresh process of
 //! each profile before it is reported, so undefined behaviour in one case cannot taint the
@@ -18,21 +20,20 @@
 mod cases;
 
 use std::collections::BTreeMap;
-use std::io::{BufRead, BufReader, Write};
+use std::io::{BufRead, BufReader, Seek, SeekFrom, Write};
 use std::path::{Path, PathBuf};
 use std::process::{Command, Stdio};
 use std::sync::Mutex;
-use std::sync::atomic::{AtomicU64, Ordering};
+use std::sync::atomic::{AtomicI64, AtomicU64, Ordering};
 use std::sync::mpsc;
 use std::time::{Duration, Instant};
 
 use cases::*;
 use vpcore::rayon::prelude::*;
 use vpcore::serde_json::{self, Value, json};
-use vpcore::{Ctx, Histo, Report, finish, machinery_error};
+use vpcore::{Ctx, Report, finish, machinery_error};
 use vpe1::enumerate::{AK, Family, VK};
 use vpe1::explore::{SeenSet, Stats, explore, input_vectors};
-use vpe1::prog::Program;
 
 // =======================================================================================
 // worker
@@ -65,7 +66,7 @@ impl Visitor<String> for RunOne {
 }
 /// Machinery self-test (`--opt selftest_abort=J:S`, release workers only): the process aborts
 /// in case (job J, script S) so that restart + per-script isolation can be demonstrated.
-static CUR_JOB: std::sync::atomic::AtomicI64 = std::sync::atomic::AtomicI64::new(-1);
+static CUR_JOB: AtomicI64 = AtomicI64::new(-1);
 fn selftest_abort(script: usize) {
     if !cfg!(debug_assertions)
         && let Ok(v) = std::env::var("C19_SELFTEST_ABORT")
@@ -84,53 +85,74 @@ fn run_caught<F: CField>(b: &Built<F>, s: &Script) -> String {
     }
 }
 
-fn load_specs(path: &Path) -> Vec<Spec> {
-    let s = std::fs::read_to_string(path).unwrap_or_else(|e| {
-        println!("X 0 cannot read jobs file: {e}");
-        std::process::exit(3)
-    });
-    s.lines().filter(|l| !l.is_empty()).map(|l| serde_json::from_str(l).expect("job line")).collect()
+/// The spec stored at byte `offset` of the jobs file (one JSON line per job).
+fn load_spec_at(path: &Path, offset: u64) -> Result<Spec, String> {
+    let mut f = std::fs::File::open(path).map_err(|e| format!("{e}"))?;
+    f.seek(SeekFrom::Start(offset)).map_err(|e| format!("{e}"))?;
+    let mut line = String::new();
+    BufReader::new(f).read_line(&mut line).map_err(|e| format!("{e}"))?;
+    serde_json::from_str(line.trim_end()).map_err(|e| format!("job line: {e}"))
 }
 
-/// `--worker <jobs> --stride K R [--after J]` | `--worker <jobs> --one J S`
+/// `--worker <jobs> --stride K R --after J` | `--worker <jobs> --one J S OFFSET`
 fn worker_main(args: &[String]) -> ! {
     vpcore::install_quiet_panic_hook();
     let out = std::io::stdout();
     let mut out = out.lock();
     let _ = writeln!(out, "H {}", cfg!(debug_assertions));
-    let specs = load_specs(Path::new(&args[0]));
+    let path = Path::new(&args[0]);
     let num = |i: usize| -> i64 { args.get(i).and_then(|s| s.parse().ok()).unwrap_or(-1) };
     match args.get(1).map(|s| s.as_str()) {
         Some("--one") => {
-            let (j, s) = (num(2) as usize, num(3) as usize);
+            let (j, s, off) = (num(2) as usize, num(3) as usize, num(4).max(0) as u64);
             let _ = writeln!(out, "B {j}");
             let _ = out.flush();
             CUR_JOB.store(j as i64, Ordering::Relaxed);
-            match with_built(&specs[j], RunOne(s)) {
-                Ok(o) => {
+            let res = vpcore::quiet_catch(|| load_spec_at(path, off).and_then(|spec| with_built(&spec, RunOne(s))));
+            match res {
+                Ok(Ok(o)) => {
                     let _ = writeln!(out, "O {o}");
                 }
-                Err(e) => {
+                Ok(Err(e)) => {
                     let _ = writeln!(out, "X {j} {e}");
+                }
+                // the circuit cannot even be constructed in this profile (a panic inside the
+                // builder, e.g. a debug_assert): not the runner's doing, reported apart
+                Err(msg) => {
+                    let _ = writeln!(out, "O buildpanic:{}", msg.replace('\n', " "));
                 }
             }
         }
         Some("--stride") => {
             let (k, r) = (num(2).max(1) as usize, num(3).max(0) as usize);
             let after = if args.get(4).map(|s| s.as_str()) == Some("--after") { num(5) } else { -1 };
-            for j in (r..specs.len()).step_by(k) {
-                if (j as i64) <= after {
+            let f = std::fs::File::open(path).unwrap_or_else(|e| {
+                let _ = writeln!(out, "X 0 cannot read jobs file: {e}");
+                std::process::exit(3)
+            });
+            // streamed: only this process' share of the lines is parsed
+            for (j, line) in BufReader::new(f).lines().enumerate() {
+                if j % k != r || (j as i64) <= after {
                     continue;
                 }
+                let Ok(line) = line else { break };
                 let _ = writeln!(out, "B {j}");
                 let _ = out.flush();
                 CUR_JOB.store(j as i64, Ordering::Relaxed);
-                match with_built(&specs[j], RunAll) {
-                    Ok((h, outs)) => {
+                let res = vpcore::quiet_catch(|| {
+                    serde_json::from_str::<Spec>(&line)
+                        .map_err(|e| format!("job line: {e}"))
+                        .and_then(|spec| with_built(&spec, RunAll))
+                });
+                match res {
+                    Ok(Ok((h, outs))) => {
                         let _ = writeln!(out, "R {j} {h:016x} {}", serde_json::to_string(&outs).unwrap());
                     }
-                    Err(e) => {
+                    Ok(Err(e)) => {
                         let _ = writeln!(out, "X {j} {e}");
+                    }
+                    Err(msg) => {
+                        let _ = writeln!(out, "P {j} {}", msg.replace('\n', " "));
                     }
                 }
             }
@@ -147,31 +169,83 @@ fn worker_main(args: &[String]) -> ! {
 // =======================================================================================
 // driver: job list
 
+/// fault classes (index = code stored per script)
+const FAULTS: &[&str] = &[
+    "baseline", "order_reversed", "no_call_empty", "no_pub", "no_priv", "no_inputs", "no_data",
+    "pub_short", "pub_long", "priv_short", "priv_long", "twice_equal", "pub_twice_diff",
+    "priv_twice_diff", "pub_conflict", "pub_other_valid", "pub_other_value", "priv_conflict",
+    "priv_other_valid", "priv_other_value", "data_twice", "data_short", "data_long",
+    "data_conflict", "data_unknown_op", "data_on_non_merkle",
+];
+const EXPECTS: [Expect; 4] = [Expect::MustOk, Expect::Benign, Expect::MustErr, Expect::Withheld];
+
+/// What the driver keeps per job: one byte per script (fault class | expectation << 6), the
+/// hash of the script list, where the spec sits in the jobs file, and a size used to pick the
+/// smallest representative of a group of violations.
 struct JobMeta {
-    spec: Spec,
+    codes: Box<[u8]>,
+    hash: u64,
+    offset: u64,
+    size: u16,
+}
+impl JobMeta {
+    fn fault(&self, s: usize) -> &'static str {
+        FAULTS[(self.codes[s] & 63) as usize]
+    }
+    fn expect(&self, s: usize) -> Expect {
+        EXPECTS[(self.codes[s] >> 6) as usize]
+    }
+}
+
+struct FullMeta {
     names: Vec<String>,
-    faults: Vec<&'static str>,
-    expects: Vec<Expect>,
+    codes: Box<[u8]>,
     hash: u64,
 }
 struct MetaOf;
-impl Visitor<(Vec<String>, Vec<&'static str>, Vec<Expect>, u64)> for MetaOf {
-    fn go<F: CField>(self, b: Built<F>) -> (Vec<String>, Vec<&'static str>, Vec<Expect>, u64) {
+impl Visitor<FullMeta> for MetaOf {
+    fn go<F: CField>(self, b: Built<F>) -> FullMeta {
         let s = scripts_for(&b);
-        (
-            s.iter().map(|x| x.name.clone()).collect(),
-            s.iter().map(|x| x.fault).collect(),
-            s.iter().map(|x| x.expect).collect(),
-            scripts_hash(&s),
-        )
+        let codes = s
+            .iter()
+            .map(|x| {
+                let f = FAULTS.iter().position(|f| *f == x.fault).unwrap_or_else(|| {
+                    machinery_error(&format!("fault class {} missing from FAULTS", x.fault))
+                }) as u8;
+                let e = EXPECTS.iter().position(|e| *e == x.expect).unwrap() as u8;
+                f | (e << 6)
+            })
+            .collect();
+        FullMeta { names: s.iter().map(|x| x.name.clone()).collect(), codes, hash: scripts_hash(&s) }
     }
 }
-fn meta_of(spec: Spec) -> Result<JobMeta, String> {
-    let (names, faults, expects, hash) = with_built(&spec, MetaOf)?;
-    Ok(JobMeta { spec, names, faults, expects, hash })
+
+fn spec_size(s: &Spec) -> u16 {
+    match s {
+        Spec::Cat(_) => 0,
+        Spec::E1 { prog, pubs, privs } => (prog.calls.len() * 16 + pubs.len() + privs.len()).min(65535) as u16,
+    }
 }
 
-/// Readers of a witness slot in the circuit of `spec` (attribution of a profile difference).
+/// Jobs are appended to the jobs file while they are enumerated.
+struct JobSink {
+    file: std::io::BufWriter<std::fs::File>,
+    offset: u64,
+    metas: Vec<JobMeta>,
+}
+impl JobSink {
+    fn push(&mut self, spec: &Spec, fm: FullMeta) {
+        let mut line = serde_json::to_string(spec).unwrap();
+        line.push('\n');
+        if let Err(e) = self.file.write_all(line.as_bytes()) {
+            machinery_error(&format!("cannot write jobs file: {e}"));
+        }
+        self.metas.push(JobMeta { codes: fm.codes, hash: fm.hash, offset: self.offset, size: spec_size(spec) });
+        self.offset += line.len() as u64;
+    }
+}
+
+/// Readers of a witness slot in the circuit of a spec (attribution of a profile difference).
 struct ReadersOf(u32);
 impl Visitor<Vec<String>> for ReadersOf {
     fn go<F: CField>(self, b: Built<F>) -> Vec<String> {
@@ -250,8 +324,8 @@ fn find_baseline(m: &vpe1::prog::Materialized<BF>) -> Option<(Vec<u64>, Vec<u64>
 
 #[derive(Clone, Copy, PartialEq, Eq, Debug)]
 enum Profile {
-    Dev,
-    Release,
+    Dev = 0,
+    Release = 1,
 }
 impl Profile {
     fn tag(&self) -> &'static str {
@@ -310,11 +384,11 @@ fn status_string(st: &std::process::ExitStatus) -> String {
 }
 
 /// One script alone in a fresh process. A dead or silent process is the outcome.
-fn run_one(w: &Workers, p: Profile, jobs: &Path, j: usize, s: usize) -> String {
+fn run_one(w: &Workers, p: Profile, jobs: &Path, j: usize, offset: u64, s: usize) -> String {
     let mut child = Command::new(w.exe(p))
         .arg("--worker")
         .arg(jobs)
-        .args(["--one", &j.to_string(), &s.to_string()])
+        .args(["--one", &j.to_string(), &s.to_string(), &offset.to_string()])
         .stdin(Stdio::null())
         .stdout(Stdio::piped())
         .stderr(Stdio::null())
@@ -362,7 +436,8 @@ struct PoolStats {
     incomplete: AtomicU64,
 }
 
-/// Runs every job in `p`'s worker, `k` processes side by side (job j goes to process j mod k).
+/// Runs every job in `p`'s worker, `k` processes side by side (job j goes to process j mod k,
+/// in increasing j in both profiles). Each finished job is handed to `submit`.
 fn run_profile(
     w: &Workers,
     p: Profile,
@@ -371,11 +446,10 @@ fn run_profile(
     k: usize,
     deadline: Instant,
     stats: &PoolStats,
-) -> Vec<Option<Vec<String>>> {
-    let results: Vec<Mutex<Option<Vec<String>>>> = metas.iter().map(|_| Mutex::new(None)).collect();
+    submit: &(dyn Fn(Profile, usize, Vec<String>) + Sync),
+) {
     std::thread::scope(|sc| {
         for r in 0..k {
-            let results = &results;
             sc.spawn(move || {
                 let mut after: i64 = -1;
                 let mut restarts = 0;
@@ -390,7 +464,9 @@ fn run_profile(
                         .spawn()
                         .unwrap_or_else(|e| machinery_error(&format!("spawn worker: {e}")));
                     let stdout = child.stdout.take().unwrap();
-                    let (tx, rx) = mpsc::channel::<String>();
+                    // bounded: when the driver is slow (back-pressure in `submit`) the worker
+                    // blocks on its pipe instead of the lines piling up here
+                    let (tx, rx) = mpsc::sync_channel::<String>(64);
                     let reader = std::thread::spawn(move || {
                         for l in BufReader::new(stdout).lines() {
                             let Ok(l) = l else { break };
@@ -405,6 +481,7 @@ fn run_profile(
                     loop {
                         if Instant::now() >= deadline {
                             let _ = child.kill();
+                            drop(rx);
                             let _ = child.wait();
                             let _ = reader.join();
                             stats.incomplete.fetch_add(1, Ordering::Relaxed);
@@ -434,15 +511,25 @@ fn run_profile(
                                             serde_json::from_str(it.next().unwrap_or("[]")).unwrap_or_default();
                                         if j >= metas.len()
                                             || h != format!("{:016x}", metas[j].hash)
-                                            || arr.len() != metas[j].names.len()
+                                            || arr.len() != metas[j].codes.len()
                                         {
                                             machinery_error(&format!(
                                                 "{} worker enumerated a different script list for job {j}",
                                                 p.tag()
                                             ));
                                         }
-                                        *results[j].lock().unwrap() = Some(arr);
+                                        submit(p, j, arr);
                                         after = j as i64;
+                                        cur = None;
+                                    }
+                                    Some("P") => {
+                                        // builder panicked in this profile: job not judged
+                                        let j: usize = it.next().and_then(|x| x.parse().ok()).unwrap_or(usize::MAX);
+                                        let msg: Vec<&str> = it.collect();
+                                        if j < metas.len() {
+                                            submit(p, j, vec![format!("buildpanic:{}", msg.join(" "))]);
+                                            after = j as i64;
+                                        }
                                         cur = None;
                                     }
                                     Some("X") => machinery_error(&format!("{} worker: {l}", p.tag())),
@@ -462,7 +549,7 @@ fn run_profile(
                             Err(mpsc::RecvTimeoutError::Disconnected) => break,
                         }
                     }
-                    let st = child.wait();
+                    let _ = child.wait();
                     let _ = reader.join();
                     if ended {
                         return;
@@ -475,12 +562,14 @@ fn run_profile(
                     }
                     if let Some(j) = cur {
                         stats.crashed_jobs.fetch_add(1, Ordering::Relaxed);
-                        let _ = st;
                         // isolate: every script of that job in its own process
-                        let outs: Vec<String> =
-                            (0..metas[j].names.len()).map(|s| run_one(w, p, jobs, j, s)).collect();
-                        stats.hangs.fetch_add(outs.iter().filter(|o| o.starts_with("hang")).count() as u64, Ordering::Relaxed);
-                        *results[j].lock().unwrap() = Some(outs);
+                        let outs: Vec<String> = (0..metas[j].codes.len())
+                            .map(|s| run_one(w, p, jobs, j, metas[j].offset, s))
+                            .collect();
+                        stats
+                            .hangs
+                            .fetch_add(outs.iter().filter(|o| o.starts_with("hang")).count() as u64, Ordering::Relaxed);
+                        submit(p, j, outs);
                         after = j as i64;
                     }
                     continue 'respawn;
@@ -488,7 +577,6 @@ fn run_profile(
             });
         }
     });
-    results.into_iter().map(|m| m.into_inner().unwrap()).collect()
 }
 
 // =======================================================================================
@@ -548,6 +636,7 @@ fn judge(expect: Expect, dev: &Out, rel: &Out, base_dev: &Out, base_rel: &Out) -
     }
 }
 
+#[derive(Clone)]
 struct Candidate {
     job: usize,
     script: usize,
@@ -561,43 +650,169 @@ struct Candidate {
 /// whose first reader in execution order is a non-primitive op (see `readers_of`); the key is
 /// then `profile_diff:npo_input_unset:<op family>` and ignores the release outcome, which is
 /// undefined behaviour and may be anything (other error, Ok, crash).
-fn key_of(meta: &JobMeta, c: &Candidate) -> (String, String) {
-    let fault = meta.faults[c.script];
+fn key_of(spec: &Spec, fault: &str, c: &Candidate) -> String {
     let withheld = matches!(fault, "no_pub" | "no_priv" | "no_inputs");
     if withheld
+        && matches!(spec, Spec::Cat(_)) // E1 programs contain no non-primitive op
         && c.dev.kind == "err"
         && c.dev.variant == "WitnessNotSet"
         && (c.rel.kind != c.dev.kind || c.rel.variant != c.dev.variant)
         && let Some(w) = c.dev.rest.rsplit(':').next().and_then(|x| x.parse::<u32>().ok())
-        && let Ok(readers) = with_built(&meta.spec, ReadersOf(w))
+        && let Ok(readers) = with_built(spec, ReadersOf(w))
         && !readers.is_empty()
         && readers[0] != "alu"
         && readers[0] != "hint"
     {
-        return (format!("profile_diff:npo_input_unset:{}", readers[0]), "npo".into());
+        return format!("profile_diff:npo_input_unset:{}", readers[0]);
     }
-    let group = format!("{}:{}:dev={}", c.clause, fault, c.dev.short());
-    (format!("{}:{}:{}:dev={}", c.clause, fault, meta.spec.show(), c.dev.short()), group)
+    format!("{}:{}:{}:dev={}", c.clause, fault, spec.show(), c.dev.short())
+}
+
+/// Violations with one cause: how many cases, and the few smallest (size, show, case).
+#[derive(Default)]
+struct Group {
+    count: u64,
+    best: Vec<(u16, String, Candidate)>,
+}
+const KEEP: usize = 6;
+
+#[derive(Default)]
+struct Agg {
+    histo: BTreeMap<String, u64>,
+    distinct: BTreeMap<String, u64>,
+    judged_jobs: u64,
+    not_constructible: u64,
+    not_constructible_samples: Vec<Value>,
+    judged_scripts: u64,
+    forced_ok: u64,
+    raw_candidates: u64,
+    samples: Vec<Value>,
+    groups: BTreeMap<String, Group>,
+}
+
+struct Judge<'a> {
+    metas: &'a [JobMeta],
+    n_cat: usize,
+    jobs_path: &'a Path,
+    deadline: Instant,
+    /// result of the profile that answered first, per job
+    pending: Vec<Mutex<Option<(Profile, Vec<String>)>>>,
+    /// jobs answered by this profile only (back-pressure: the profile that is ahead waits)
+    ahead: [AtomicI64; 2],
+    agg: Mutex<Agg>,
+}
+const MAX_AHEAD: i64 = 40_000;
+
+impl Judge<'_> {
+    /// Called by the pools. Deadlock-free: a pool thread only ever waits before storing a
+    /// *first* answer; within one stride both profiles walk the same jobs in the same order, so
+    /// the profile that is behind only produces second answers and never waits.
+    fn submit(&self, p: Profile, j: usize, outs: Vec<String>) {
+        loop {
+            {
+                let mut slot = self.pending[j].lock().unwrap();
+                if let Some((q, other)) = slot.take() {
+                    drop(slot);
+                    self.ahead[q as usize].fetch_sub(1, Ordering::Relaxed);
+                    let (d, r) = if p == Profile::Dev { (outs, other) } else { (other, outs) };
+                    self.judge_job(j, &d, &r);
+                    return;
+                }
+                if self.ahead[p as usize].load(Ordering::Relaxed) < MAX_AHEAD || Instant::now() >= self.deadline {
+                    *slot = Some((p, outs));
+                    self.ahead[p as usize].fetch_add(1, Ordering::Relaxed);
+                    return;
+                }
+            }
+            std::thread::sleep(Duration::from_millis(3));
+        }
+    }
+
+    fn judge_job(&self, j: usize, d: &[String], r: &[String]) {
+        let meta = &self.metas[j];
+        // The builder itself panicked in one profile (observed: a debug_assert in
+        // CircuitBuilder::connect): there is no circuit to execute, hence no claim of C19.
+        // Counted and shown in the evidence, never judged.
+        for (p, o) in [("dev", d), ("release", r)] {
+            if o.len() != meta.codes.len() || o.first().is_some_and(|x| x.starts_with("buildpanic:")) {
+                let mut a = self.agg.lock().unwrap();
+                a.not_constructible += 1;
+                if a.not_constructible_samples.len() < 3 {
+                    let show = load_spec_at(self.jobs_path, meta.offset).map(|s| s.show()).unwrap_or_default();
+                    a.not_constructible_samples.push(json!({"circuit": show, "profile": p,
+                        "message": o.first().cloned().unwrap_or_default()}));
+                }
+                return;
+            }
+        }
+        let (bd, br) = (parse_out(&d[0]), parse_out(&r[0]));
+        let mut histo: BTreeMap<String, u64> = BTreeMap::new();
+        let mut forced = 0;
+        let mut cands: Vec<Candidate> = vec![];
+        let mut sample: Option<(usize, &'static str)> = None;
+        for s in 0..meta.codes.len() {
+            let (od, or) = (parse_out(&d[s]), parse_out(&r[s]));
+            *histo.entry(format!("{}|{}|{}", meta.fault(s), od.short(), or.short())).or_insert(0) += 1;
+            let e = meta.expect(s);
+            if e == Expect::Withheld && od.kind == "ok" && or.kind == "ok" && od.rest == bd.rest {
+                forced += 1;
+            }
+            if let Some(clause) = judge(e, &od, &or, &bd, &br) {
+                cands.push(Candidate { job: j, script: s, clause, dev: od, rel: or });
+            } else if j < self.n_cat && s % 9 == 3 || j % 20011 == 77 && s == 5 {
+                sample = Some((s, meta.fault(s)));
+            }
+        }
+        // the spec is needed only for violating jobs and samples
+        let spec = if !cands.is_empty() || sample.is_some() {
+            load_spec_at(self.jobs_path, meta.offset).ok()
+        } else {
+            None
+        };
+        let mut keyed: Vec<(String, String, Candidate)> = vec![];
+        if let Some(spec) = &spec {
+            for c in cands {
+                let key = key_of(spec, meta.fault(c.script), &c);
+                // catalogue circuits and attributed findings keep their full key; E1 programs
+                // are grouped by (clause, fault class, dev outcome) and later represented by
+                // the smallest program of the group
+                let g = if j < self.n_cat || key.starts_with("profile_diff:npo_input_unset:") {
+                    key
+                } else {
+                    format!("e1|{}:{}:dev={}", c.clause, meta.fault(c.script), c.dev.short())
+                };
+                keyed.push((g, spec.show(), c));
+            }
+        }
+        let mut a = self.agg.lock().unwrap();
+        a.judged_jobs += 1;
+        a.judged_scripts += meta.codes.len() as u64;
+        a.forced_ok += forced;
+        for (k, v) in histo {
+            if !k.starts_with("baseline|") {
+                *a.distinct.entry(k.clone()).or_insert(0) += v;
+            }
+            *a.histo.entry(k).or_insert(0) += v;
+        }
+        if let (Some((s, f)), Some(spec)) = (sample, &spec)
+            && a.samples.len() < 10
+        {
+            a.samples.push(json!({"circuit": spec.show(), "script_index": s, "fault": f,
+                "expect": format!("{:?}", meta.expect(s)), "dev": d[s], "release": r[s]}));
+        }
+        for (g, show, c) in keyed {
+            a.raw_candidates += 1;
+            let grp = a.groups.entry(g).or_default();
+            grp.count += 1;
+            grp.best.push((meta.size, show, c));
+            grp.best.sort_by(|x, y| (x.0, &x.1, x.2.script).cmp(&(y.0, &y.1, y.2.script)));
+            grp.best.truncate(KEEP);
+        }
+    }
 }
 
 // =======================================================================================
 // driver main
-
-fn write_jobs(path: &Path, specs: &[&Spec]) {
-    let mut s = String::new();
-    for x in specs {
-        s.push_str(&serde_json::to_string(x).unwrap());
-        s.push('\n');
-    }
-    std::fs::write(path, s).unwrap_or_else(|e| machinery_error(&format!("cannot write {}: {e}", path.display())));
-}
-
-fn spec_size(s: &Spec) -> (usize, usize, String) {
-    match s {
-        Spec::Cat(n) => (0, 0, n.clone()),
-        Spec::E1 { prog, pubs, privs } => (1 + prog.calls.len(), pubs.len() + privs.len(), prog.show()),
-    }
-}
 
 fn main() {
     let args: Vec<String> = std::env::args().skip(1).collect();
@@ -619,75 +834,90 @@ fn main() {
         "a withheld input that the circuit itself forces (connected to a constant / solved backwards by the runner) may yield Ok, but only with exactly the baseline's witness values".to_string(),
         "E1 programs: an input vector is 'conflicting' when the node-level reference semantics of the builder's DAG (cases::dag_classify) says a connect / assert_zero / bit-reconstruction relation is violated; assert_bool is excluded (not evaluated by the runner); vectors hitting a zero divisor carry no claim".to_string(),
     ];
+    let open_sink = || JobSink {
+        file: std::io::BufWriter::new(
+            std::fs::File::create(&jobs_path)
+                .unwrap_or_else(|e| machinery_error(&format!("cannot create {}: {e}", jobs_path.display()))),
+        ),
+        offset: 0,
+        metas: vec![],
+    };
 
     // ---------------------------------------------------------------- replay
     if let Some(path) = &ctx.replay {
         let r = vpcore::load_replay(path);
         let spec: Spec = serde_json::from_value(r["spec"].clone())
             .unwrap_or_else(|e| machinery_error(&format!("bad replay: {e}")));
-        let meta = meta_of(spec).unwrap_or_else(|e| machinery_error(&format!("replay build: {e}")));
+        let fm = with_built(&spec, MetaOf).unwrap_or_else(|e| machinery_error(&format!("replay build: {e}")));
+        let names = fm.names.clone();
         let s = r["script"].as_u64().unwrap_or(0) as usize;
-        if s >= meta.names.len() {
+        if s >= names.len() {
             machinery_error("replay: no such script");
         }
-        write_jobs(&jobs_path, &[&meta.spec]);
-        println!("replaying {} / {}", meta.spec.show(), meta.names[s]);
-        let o = |p, s| parse_out(&run_one(&workers, p, &jobs_path, 0, s));
+        let mut sink = open_sink();
+        sink.push(&spec, fm);
+        let _ = sink.file.flush();
+        let meta = &sink.metas[0];
+        println!("replaying {} / {}", spec.show(), names[s]);
+        let o = |p, s| parse_out(&run_one(&workers, p, &jobs_path, 0, 0, s));
         let (bd, br) = (o(Profile::Dev, 0), o(Profile::Release, 0));
         let (d, rl) = (o(Profile::Dev, s), o(Profile::Release, s));
         println!("  baseline: dev={bd:?} release={br:?}\n  case:     dev={d:?} release={rl:?}");
-        if let Some(clause) = judge(meta.expects[s], &d, &rl, &bd, &br) {
+        if let Some(clause) = judge(meta.expect(s), &d, &rl, &bd, &br) {
             let c = Candidate { job: 0, script: s, clause, dev: d.clone(), rel: rl.clone() };
-            let (key, _) = key_of(&meta, &c);
+            let key = key_of(&spec, meta.fault(s), &c);
             report.violation(
                 key,
-                format!("[{clause}] {} / {}: dev={} release={}", meta.spec.show(), meta.names[s], d.short(), rl.short()),
-                json!({"spec": meta.spec, "script": s, "script_name": meta.names[s]}),
+                format!("[{clause}] {} / {}: dev={} release={}", spec.show(), names[s], d.short(), rl.short()),
+                json!({"spec": spec, "script": s, "script_name": names[s]}),
             );
         }
         let _ = std::fs::remove_file(&jobs_path);
         let cov = json!({"evaluations": 4, "distinct_nontrivial": 2, "rule": "replay of one stored case in both profiles (baseline + case)",
-            "samples": [format!("{} / {}", meta.spec.show(), meta.names[s])], "replay": true});
+            "samples": [format!("{} / {}", spec.show(), names[s])], "replay": true});
         finish(&ctx, cov, assumptions, &report);
     }
 
     // ---------------------------------------------------------------- enumerate jobs
     let thorough = !ctx.quick();
-    let mut metas: Vec<JobMeta> = vec![];
+    let mut sink = open_sink();
     let mut cat_names = catalogue(thorough);
     if let Some(only) = ctx.opt("cat") {
         cat_names.retain(|n| *n == only);
     }
     for name in &cat_names {
-        match meta_of(Spec::Cat(name.to_string())) {
-            Ok(m) => metas.push(m),
+        let spec = Spec::Cat(name.to_string());
+        match with_built(&spec, MetaOf) {
+            Ok(fm) => sink.push(&spec, fm),
             Err(e) => machinery_error(&format!("catalogue circuit {name}: {e}")),
         }
     }
-    let n_cat = metas.len();
+    let n_cat = sink.metas.len();
 
     let mut fam_reports = vec![];
     let mut enum_exhaustive = true;
-    let e1_jobs: Mutex<Vec<JobMeta>> = Mutex::new(vec![]);
+    let sink = Mutex::new(sink);
     let no_baseline = AtomicU64::new(0);
     let build_rejected = AtomicU64::new(0);
-    let fams = if ctx.opt("e1") == Some("off") { vec![] } else { families(thorough) };
+    let mut fams = if ctx.opt("e1") == Some("off") { vec![] } else { families(thorough) };
+    if let Some(only) = ctx.opt("fam") {
+        fams.retain(|f| f.name == only);
+    }
     let seen_keys = SeenSet::default();
     let cs = e1_consts();
     // enumeration may use the first 45 % of the budget (families in order, simplest first)
-    for (fi, fam) in fams.iter().enumerate() {
+    for fam in fams.iter() {
         let stats = Stats::default();
         let seen_prune = SeenSet::default();
-        let _ = fi;
-        let stop_at = 0.45;
         let t0 = ctx.elapsed_s();
-        explore::<BF, BF>(fam, &cs, &ctx, stop_at, &seen_keys, &seen_prune, &stats, &|_, _| {}, &|p, m| {
+        explore::<BF, BF>(fam, &cs, &ctx, 0.45, &seen_keys, &seen_prune, &stats, &|_, _| {}, &|p, m| {
             let Some((pubs, privs)) = find_baseline(&m) else {
                 no_baseline.fetch_add(1, Ordering::Relaxed);
                 return;
             };
-            match meta_of(Spec::E1 { prog: p.clone(), pubs, privs }) {
-                Ok(meta) => e1_jobs.lock().unwrap().push(meta),
+            let spec = Spec::E1 { prog: p.clone(), pubs, privs };
+            match with_built(&spec, MetaOf) {
+                Ok(fm) => sink.lock().unwrap().push(&spec, fm),
                 Err(_) => {
                     build_rejected.fetch_add(1, Ordering::Relaxed);
                 }
@@ -710,143 +940,120 @@ fn main() {
             ctx.elapsed_s() - t0
         );
     }
-    let mut e1_jobs = e1_jobs.into_inner().unwrap();
-    // simplest first, deterministic order
-    e1_jobs.sort_by_cached_key(|m| spec_size(&m.spec));
-    metas.extend(e1_jobs);
+    let mut sink = sink.into_inner().unwrap();
+    if let Err(e) = sink.file.flush() {
+        machinery_error(&format!("cannot write jobs file: {e}"));
+    }
+    let metas = std::mem::take(&mut sink.metas);
+    drop(sink);
     let n_jobs = metas.len();
-    let n_scripts: usize = metas.iter().map(|m| m.names.len()).sum();
-    write_jobs(&jobs_path, &metas.iter().map(|m| &m.spec).collect::<Vec<_>>());
+    let n_scripts: usize = metas.iter().map(|m| m.codes.len()).sum();
     eprintln!("jobs={n_jobs} (catalogue {n_cat}) scripts={n_scripts} enumerated in {:.1}s", ctx.elapsed_s());
 
-    // ---------------------------------------------------------------- run both profiles
-    let deadline = ctx.start + ctx.budget.mul_f64(0.80);
+    // ---------------------------------------------------------------- run both profiles, judge as results arrive
+    let deadline = ctx.start + ctx.budget.mul_f64(0.85);
     let k: usize = ctx.opt("procs").and_then(|s| s.parse().ok()).unwrap_or(if n_jobs > 64 { 6 } else { 1 });
     let (st_dev, st_rel) = (PoolStats::default(), PoolStats::default());
-    let (res_dev, res_rel) = std::thread::scope(|sc| {
-        let hd = sc.spawn(|| run_profile(&workers, Profile::Dev, &jobs_path, &metas, k, deadline, &st_dev));
-        let hr = sc.spawn(|| run_profile(&workers, Profile::Release, &jobs_path, &metas, k, deadline, &st_rel));
-        (hd.join().unwrap(), hr.join().unwrap())
+    let judge_state = Judge {
+        metas: &metas,
+        n_cat,
+        jobs_path: &jobs_path,
+        deadline,
+        pending: metas.iter().map(|_| Mutex::new(None)).collect(),
+        ahead: [AtomicI64::new(0), AtomicI64::new(0)],
+        agg: Mutex::new(Agg::default()),
+    };
+    let submit = |p: Profile, j: usize, outs: Vec<String>| judge_state.submit(p, j, outs);
+    std::thread::scope(|sc| {
+        sc.spawn(|| run_profile(&workers, Profile::Dev, &jobs_path, &metas, k, deadline, &st_dev, &submit));
+        sc.spawn(|| run_profile(&workers, Profile::Release, &jobs_path, &metas, k, deadline, &st_rel, &submit));
     });
     eprintln!("bulk run done at {:.1}s", ctx.elapsed_s());
+    let agg = judge_state.agg.into_inner().unwrap();
 
-    // ---------------------------------------------------------------- judge
-    let histo = Histo::new();
-    let mut distinct: BTreeMap<String, u64> = BTreeMap::new();
-    let mut candidates: Vec<Candidate> = vec![];
-    let mut judged_jobs = 0u64;
-    let mut judged_scripts = 0u64;
-    let mut forced_ok = 0u64;
-    let mut samples: Vec<Value> = vec![];
-    for (j, meta) in metas.iter().enumerate() {
-        let (Some(d), Some(r)) = (&res_dev[j], &res_rel[j]) else { continue };
-        judged_jobs += 1;
-        let (bd, br) = (parse_out(&d[0]), parse_out(&r[0]));
-        for s in 0..meta.names.len() {
-            judged_scripts += 1;
-            let (od, or) = (parse_out(&d[s]), parse_out(&r[s]));
-            histo.add(&format!("{} dev={} release={}", meta.faults[s], od.short(), or.short()));
-            if meta.faults[s] != "baseline" {
-                *distinct.entry(format!("{}|{}|{}", meta.faults[s], od.short(), or.short())).or_insert(0) += 1;
-            }
-            if meta.expects[s] == Expect::Withheld && od.kind == "ok" && or.kind == "ok" && od.rest == bd.rest {
-                forced_ok += 1;
-            }
-            if let Some(clause) = judge(meta.expects[s], &od, &or, &bd, &br) {
-                candidates.push(Candidate { job: j, script: s, clause, dev: od, rel: or });
-            } else if samples.len() < 8 && (j < n_cat && s % 7 == 3 || j == n_cat + 50 + samples.len()) {
-                samples.push(json!({"circuit": meta.spec.show(), "script": meta.names[s],
-                    "expect": format!("{:?}", meta.expects[s]), "dev": d[s], "release": r[s]}));
-            }
-        }
-    }
-    let raw_candidates = candidates.len();
-
-    // group candidates; confirm the smallest members of each group alone in fresh processes
-    let mut groups: BTreeMap<String, Vec<usize>> = BTreeMap::new();
-    for (i, c) in candidates.iter().enumerate() {
-        let (key, group) = key_of(&metas[c.job], c);
-        // catalogue circuits and attributed findings keep their full key; E1 programs are
-        // grouped by (clause, fault class, dev outcome) and represented by the smallest program
-        let g = if c.job < n_cat || group == "npo" { key } else { format!("e1|{group}") };
-        groups.entry(g).or_default().push(i);
-    }
+    // ---------------------------------------------------------------- confirm each group alone in fresh processes
     let confirm_total = AtomicU64::new(0);
     let unconfirmed = AtomicU64::new(0);
-    let group_list: Vec<(&String, &Vec<usize>)> = groups.iter().collect();
-    group_list.par_iter().for_each(|(_g, members)| {
-        // members are in job order = simplest first
-        let mut confirmed: Option<(Candidate, String)> = None;
-        for &i in members.iter().take(6) {
-            let c = &candidates[i];
+    let group_list: Vec<(&String, &Group)> = agg.groups.iter().collect();
+    group_list.par_iter().for_each(|(_g, grp)| {
+        for (_, _, c) in grp.best.iter() {
             let meta = &metas[c.job];
-            let o = |p, s| parse_out(&run_one(&workers, p, &jobs_path, c.job, s));
+            let o = |p, s| parse_out(&run_one(&workers, p, &jobs_path, c.job, meta.offset, s));
             let (bd, br) = (o(Profile::Dev, 0), o(Profile::Release, 0));
             let (d, r) = (o(Profile::Dev, c.script), o(Profile::Release, c.script));
             confirm_total.fetch_add(1, Ordering::Relaxed);
-            if let Some(clause) = judge(meta.expects[c.script], &d, &r, &bd, &br) {
-                let cc = Candidate { job: c.job, script: c.script, clause, dev: d, rel: r };
-                let (key, _) = key_of(meta, &cc);
-                confirmed = Some((cc, key));
-                break;
-            }
-            unconfirmed.fetch_add(1, Ordering::Relaxed);
-        }
-        if let Some((c, key)) = confirmed {
-            let meta = &metas[c.job];
+            let Some(clause) = judge(meta.expect(c.script), &d, &r, &bd, &br) else {
+                unconfirmed.fetch_add(1, Ordering::Relaxed);
+                continue;
+            };
+            let cc = Candidate { job: c.job, script: c.script, clause, dev: d, rel: r };
+            let Ok(spec) = load_spec_at(&jobs_path, meta.offset) else { continue };
+            let name = with_built(&spec, MetaOf).map(|f| f.names[c.script].clone()).unwrap_or_default();
+            let key = key_of(&spec, meta.fault(c.script), &cc);
             let what = format!(
                 "[{}] {} / {} (expect {:?}): dev={} release={} - {} bulk cases in this group",
-                c.clause,
-                meta.spec.show(),
-                meta.names[c.script],
-                meta.expects[c.script],
-                c.dev.short(),
-                c.rel.short(),
-                members.len()
+                cc.clause,
+                spec.show(),
+                name,
+                meta.expect(c.script),
+                cc.dev.short(),
+                cc.rel.short(),
+                grp.count
             );
-            let replay = json!({"spec": meta.spec, "script": c.script, "script_name": meta.names[c.script],
-                "dev": format!("{:?}", c.dev), "release": format!("{:?}", c.rel), "clause": c.clause});
-            for _ in 0..members.len().max(1) {
+            let replay = json!({"spec": spec, "script": c.script, "script_name": name,
+                "dev": format!("{:?}", cc.dev), "release": format!("{:?}", cc.rel), "clause": cc.clause});
+            for _ in 0..grp.count.clamp(1, 100_000) {
                 report.violation(key.clone(), what.clone(), replay.clone());
             }
+            break;
         }
     });
     let _ = std::fs::remove_file(&jobs_path);
 
-    let complete = judged_jobs as usize == n_jobs;
-    let distinct_nontrivial = distinct.len();
-    if samples.is_empty() {
-        samples.push(json!("no case judged"));
-    }
-    let restarts = |s: &PoolStats| json!({"restarts": s.restarts.load(Ordering::Relaxed), "jobs_isolated_after_crash": s.crashed_jobs.load(Ordering::Relaxed),
-        "hangs": s.hangs.load(Ordering::Relaxed), "pools_cut_by_deadline": s.incomplete.load(Ordering::Relaxed)});
-    if judged_jobs == 0 {
+    let complete = (agg.judged_jobs + agg.not_constructible) as usize == n_jobs;
+    if agg.judged_jobs == 0 {
         machinery_error("no job was executed in both profiles within the budget");
     }
+    let mut samples = agg.samples.clone();
+    if samples.is_empty() {
+        samples.push(json!("no sample collected"));
+    }
+    let pool = |s: &PoolStats| json!({"restarts": s.restarts.load(Ordering::Relaxed), "jobs_isolated_after_crash": s.crashed_jobs.load(Ordering::Relaxed),
+        "hangs": s.hangs.load(Ordering::Relaxed), "pools_cut_by_deadline": s.incomplete.load(Ordering::Relaxed)});
+    let histo: BTreeMap<String, u64> = agg
+        .histo
+        .iter()
+        .map(|(k, v)| {
+            let mut it = k.split('|');
+            (format!("{} dev={} release={}", it.next().unwrap_or(""), it.next().unwrap_or(""), it.next().unwrap_or("")), *v)
+        })
+        .collect();
     let cov = json!({
-        "evaluations": 2 * judged_scripts + 4 * confirm_total.load(Ordering::Relaxed),
-        "distinct_nontrivial": distinct_nontrivial,
+        "evaluations": 2 * agg.judged_scripts + 4 * confirm_total.load(Ordering::Relaxed),
+        "distinct_nontrivial": agg.distinct.len(),
         "rule": "an evaluation is one script (setter calls + run) executed on the real runner in one profile; distinct_nontrivial counts distinct (fault class, dev outcome, release outcome) triples over non-baseline scripts",
         "samples": samples,
         "exhaustive": enum_exhaustive && complete,
         "circuits": n_jobs,
-        "circuits_judged_in_both_profiles": judged_jobs,
+        "circuits_judged_in_both_profiles": agg.judged_jobs,
+        "circuits_whose_construction_panics_in_one_profile_not_judged": agg.not_constructible,
+        "construction_panic_samples": agg.not_constructible_samples,
         "catalogue": cat_names,
         "e1_families": fam_reports,
         "e1_programs": n_jobs - n_cat,
         "e1_programs_without_satisfying_baseline_skipped": no_baseline.load(Ordering::Relaxed),
         "e1_programs_rejected_by_build": build_rejected.load(Ordering::Relaxed),
         "scripts": n_scripts,
-        "scripts_judged": judged_scripts,
-        "withheld_but_forced_by_circuit_ok": forced_ok,
+        "scripts_judged": agg.judged_scripts,
+        "withheld_but_forced_by_circuit_ok": agg.forced_ok,
         "worker_processes_per_profile": k,
-        "dev_pool": restarts(&st_dev),
-        "release_pool": restarts(&st_rel),
-        "raw_violating_cases_bulk": raw_candidates,
-        "violation_groups": groups.len(),
+        "dev_pool": pool(&st_dev),
+        "release_pool": pool(&st_rel),
+        "raw_violating_cases_bulk": agg.raw_candidates,
+        "violation_groups": agg.groups.len(),
         "isolated_confirmation_runs": confirm_total.load(Ordering::Relaxed),
         "bulk_candidates_not_reproduced_in_isolation": unconfirmed.load(Ordering::Relaxed),
-        "outcome_histogram": histo.to_json(),
+        "outcome_histogram": histo,
     });
     finish(&ctx, cov, assumptions, &report);
 }
